@@ -888,9 +888,9 @@ Theorem compile_correct6 : forall sc lv sg rho e r sg' rho', ref_eval6 bsem sc l
 Proof.
   apply (ref_eval6_min bsem body_ok6 evals_okP6).
   - intros sc lv sg rho c f l tail s l' s' code Hwf. pose proof Hwf as [Hs Hd]. revert f l tail s l' s' code Hwf.
-    apply (dyn_datum6 sc lv sg rho (WConst c) c); [intros; apply compile_const_eq; exact Hs|exact Hd].
+    apply (dyn_datum6 sc lv sg rho (WConst c) c); [intros; apply compile_const_eq; [exact Hs|exact Hd]|exact Hd].
   - intros sc lv sg rho d f l tail s l' s' code Hwf. pose proof Hwf as Hd. cbn [wf6] in Hd. revert f l tail s l' s' code Hwf.
-    apply (dyn_datum6 sc lv sg rho (WQuote d) d); [intros; apply compile_quote_form|exact Hd].
+    apply (dyn_datum6 sc lv sg rho (WQuote d) d); [intros; apply compile_quote_form; exact Hd|exact Hd].
   - intros sc lv sg rho x i l r Hp Hn Hl. apply (dyn_local6 sc lv sg rho x i l r Hp Hn Hl).
   - intros sc lv sg rho x r Hp Hr Hu. apply dyn_global6; assumption.
   - intros sc lv sg rho c a b rc sg1 rho1 r sg2 rho2 _ IHc Hrc _ IHa.
